@@ -76,6 +76,13 @@ func DescribedMap(desc string) map[expr.Operator]driver.RenderFN {
 		d := driver.NewPostgresDriver()
 		d.RenderFNs[arg] = TraceFn(arg)
 		return d.RenderFNs
+	case "instance-delete", "delete":
+		// a copy of the postgres table without the operator ("instance-delete" gets here only when driver instances share their table)
+		for k, v := range driver.NewPostgresDriver().RenderFNs {
+			if k != arg {
+				m[k] = v
+			}
+		}
 	case "fail":
 		for _, op := range AllOps {
 			m[op] = TraceFn(op)
@@ -102,9 +109,41 @@ func tablesIndependent() bool {
 	return indep
 }
 
+// renderer is what both driver.Base and the driver instances returned by NewPostgresDriver offer.
+type renderer interface {
+	Render(e *expr.Expression) (string, error)
+	RenderParam(e *expr.Expression) (string, []any, error)
+}
+
+// instanceFor: for the descriptions that customise a driver INSTANCE (override-inplace, instance-delete) the instance
+// itself — the documented way to customise is to change the RenderFNs of the driver one holds, and the rendering must go
+// through THAT driver's methods (a driver that snapshots its table at construction ignores later changes).
+func instanceFor(desc string) renderer {
+	parts := strings.Split(desc, ":")
+	if len(parts) != 2 || !tablesIndependent() {
+		return nil
+	}
+	n, _ := strconv.Atoi(parts[1])
+	arg := expr.Operator(n)
+	switch parts[0] {
+	case "override-inplace":
+		d := driver.NewPostgresDriver()
+		d.RenderFNs[arg] = TraceFn(arg)
+		return d
+	case "instance-delete":
+		d := driver.NewPostgresDriver()
+		delete(d.RenderFNs, arg)
+		return d
+	}
+	return nil
+}
+
 // RunRender is Base{RenderFNs: m}.Render(e) and .RenderParam(e) in canonical text, tab separated.
 func RunRender(e *expr.Expression, desc string) string {
-	b := driver.Base{RenderFNs: DescribedMap(desc)}
+	var b renderer = driver.Base{RenderFNs: DescribedMap(desc)}
+	if d := instanceFor(desc); d != nil {
+		b = d
+	}
 	r := guard(func() string {
 		s, err := b.Render(e)
 		if err != nil {
